@@ -42,14 +42,16 @@ Theorem C05_surface : forall ctx base,
      same_members (denote {| d_ctx := ctx; d_base := base; d_nodes := ns |}) (denote {| d_ctx := ctx; d_base := base; d_nodes := ns' |}))
   /\ (forall p l ns, assoc p ctx = Some ns -> expand ctx base (ICompact p l) = expand ctx base (IAbs (ns ++ l)%string))
   /\ (forall s, expand ctx base (IRel s) = expand ctx base (IAbs (base ++ s)%string))
+  /\ (forall l v, assoc l ctx = None -> assoc "@vocab"%string ctx = Some v -> expand ctx base (IVocab l) = expand ctx base (IAbs (v ++ l)%string))
   /\ (forall i ts p m, same_members (denote_node ctx base (SNode i ts [(p, [SEmbed m])]))
                                     (denote_node ctx base (SNode i ts [(p, [SRef (node_id m)])]) ++ denote_node ctx base m))
   /\ (forall i ts p v, same_members (denote_node ctx base (SNode i ts [(p, [v; v])])) (denote_node ctx base (SNode i ts [(p, [v])]))).
 Proof.
-  intros ctx base. split; [|split; [|split; [|split]]].
+  intros ctx base. split; [|split; [|split; [|split; [|split]]]].
   - intros ns ns' H. now apply surface_node_order.
   - intros p l ns H. now apply surface_compact.
   - intros s. apply surface_relative.
+  - intros l v H1 H2. now apply surface_vocab.
   - intros i ts p m. apply surface_embedded.
   - intros i ts p v. apply surface_repeated_value.
 Qed.
